@@ -108,10 +108,11 @@ def make_exc(ei):
         lambda: ValueError('bad', 3), lambda: KeyError('k'), lambda: HarnessError(1, 'two'),
         lambda: ZeroDivisionError('division by zero'), lambda: OSError(2, 'no such thing'), lambda: RuntimeError(),
         lambda: HarnessBase('b'), lambda: AssertionError('a'), lambda: StopIteration(5), lambda: TypeError('t'),
+        lambda: ValueError('y' * 300000, 9),      # an outcome far beyond the 64 KiB of a pipe buffer
     ][ei]()
 
 
-N_EXCS = 10
+N_EXCS = 11
 
 
 def make_excx(ei):
@@ -129,6 +130,8 @@ def make_excx(ei):
 N_EXCX = 6
 _rot = [0]
 _rotkw = [0]
+_rotv = [0]
+_rote = [0]
 
 
 # ---- child side ---------------------------------------------------------------------------------------------------------
@@ -483,9 +486,11 @@ def scenario(rnd, flavour, kind, phase, sig, first):
     sc = {'flavour': flavour, 'kind': kind, 'phase': phase, 'sig': sig, 'accs': order, 'vi': 0, 'ei': 0,
           'viakw': _rotkw[0] % 2 == 0}     # arguments passed in a kwargs dict that the caller keeps alive
     if kind == 'ret':
-        sc['vi'] = rnd.randrange(-1, N_VALUES)
+        _rotv[0] += 1
+        sc['vi'] = (_rotv[0] * 4) % (N_VALUES + 1) - 1     # every value of the catalogue in turn (4 is coprime to 15), -1 = None
     elif kind == 'raise':
-        sc['ei'] = rnd.randrange(N_EXCS)
+        _rote[0] += 1
+        sc['ei'] = (_rote[0] * 3) % N_EXCS                 # every exception of the catalogue in turn (3 is coprime to 11)
     elif kind == 'raiseX':
         _rot[0] += 1
         sc['ei'] = _rot[0] % N_EXCX      # every class of the catalogue in turn
@@ -505,6 +510,14 @@ def gen_scenarios(rnd, flavour, rounds, all_first=False):
                 k += 1
                 for first in firsts:
                     out.append(scenario(rnd, flavour, kind, ph, sig, first))
+    # outcomes far beyond the 64 KiB of a pipe buffer, in runs that are not killed: returned and raised, each first accessor
+    # in turn
+    big_v = next(i for i in range(N_VALUES) if isinstance(make_value(i), str) and len(make_value(i)) >= 100000)
+    for r in range(rounds):
+        for j, (kind, key, idx) in enumerate((('ret', 'vi', big_v), ('raise', 'ei', N_EXCS - 1))):
+            sc = scenario(rnd, flavour, kind, 'none', 'none', accs[(r * 2 + j) % len(accs)])
+            sc[key] = idx
+            out.append(sc)
     return out
 
 
